@@ -59,13 +59,15 @@ async def _build_cases_async(storage_name: str):
     kopf.on.resume(*R, registry=registry, id='resumedel', deleted=True)(mk('resumedel'))
 
     recs = []
-    for ev, deleting, blocked, stored, nbl, fho, foreign in itertools.product(
+    for ev, deleting, blocked, stored, nbl, fho, foreign, bare in itertools.product(
             ['NONE', 'ADDED', 'MODIFIED', 'DELETED'], [False, True], [False, True],
-            ['none', 'same', 'differs'], [False, True], [False, True], [False, True]):
+            ['none', 'same', 'differs'], [False, True], [False, True], [False, True], [False, True]):
         raw = {'apiVersion': 'example.com/v1', 'kind': 'Thing',
                'metadata': {'name': 'o', 'namespace': 'ns', 'uid': 'u1', 'resourceVersion': '7',
                             'labels': {'l': 'v'}},
                'spec': {'x': 2}, 'status': {'other': 1}}
+        if bare:        # an object whose essence is empty: no spec, no labels, no annotations of its own
+            del raw['spec']; del raw['metadata']['labels']
         fins = (['other.example.com/first'] if foreign else []) + ([FIN] if blocked else []) \
             + (['other.example.com/last'] if foreign else [])
         if fins:
@@ -75,7 +77,7 @@ async def _build_cases_async(storage_name: str):
         if stored != 'none':
             src = copy.deepcopy(raw)
             if stored == 'differs':
-                src['spec']['x'] = 1
+                src['spec'] = {'x': 1}
             ess = settings.persistence.diffbase_storage.build(body=bodies.Body(src), extra_fields=set())
             p = patches.Patch()
             settings.persistence.diffbase_storage.store(body=bodies.Body(raw), patch=p, essence=ess)
@@ -98,7 +100,7 @@ async def _build_cases_async(storage_name: str):
         recs.append({
             'in': {'ev': ev, 'deleting': deleting, 'blocked': blocked, 'hasOld': stored != 'none',
                    'differs': stored == 'differs', 'initial': nbl and not fho,
-                   'storage': storage_name, 'foreign': foreign},
+                   'storage': storage_name, 'foreign': foreign, 'bare': bare},
             'out': {'reason': cause.reason.value, 'initial': bool(cause.initial),
                     'kinds': sorted(set(invoked)), 'invoked': len(invoked)},
         })
@@ -129,7 +131,14 @@ def run(ctx, rep) -> None:
     for rec in recs:
         if rec['out']['kinds']:
             rep.nontrivial([rec['in'], rec['out']])
-    for i in (0, 37, 200):
+    for i in (0, 75, 400):
         rep.sample(recs[i])
     for i, label in sorted(bad.items()):
         rep.classified(label if label.startswith('F') else '', f'{label}: {recs[i]}', payload=recs[i])
+    # (C) system level: closed-loop traces; Trace_Handling evaluates InvokeCauseOk (what may be invoked on which object
+    # state) on every invocation and binds reason / view of each handler call to the specification's classification
+    from vf import handling as H
+    from vf.props import _family
+    n = 40 if ctx.quick else 800
+    scs = H.gen_scenarios(ctx.seed, n, 'resume') + H.gen_scenarios(ctx.seed, n, 'finalizer') + H.gen_scenarios(ctx.seed, n, 'converge')
+    _family.run_traces(rep, scs, 'resume+finalizer+converge', nontrivial=lambda f: bool(f & {'several-reasons', 'resume', 'delete'}))
